@@ -48,7 +48,7 @@ def _gen_cfg(rnd):
         "steps": rnd.choice([15, 40, 80]),
         "names": rnd.choice(["str", "int"]),
         "stream_seed": rnd.randrange(2 ** 31),
-        "model": rnd.choice(["linear", "linear", "river-labels"]),
+        "model": rnd.choice(["linear", "linear", "river-labels", "sparse-labels"]),
         "tree_seed": rnd.choice([0, 0, 1, 42, rnd.randrange(1000)]),
     }
 
@@ -105,6 +105,9 @@ def interleaved(cfg, seed, cfg_b, seed_b):
     return out
 
 
+_NAMES = {}
+
+
 def scenario_gen(cfg, seed):
     from ixai.explainer import IncrementalSage, IncrementalPFI, BatchSage, IntervalSage
     from ixai.storage import (UniformReservoirStorage, GeometricReservoirStorage, IntervalStorage, BatchStorage, TreeStorage)
@@ -112,7 +115,9 @@ def scenario_gen(cfg, seed):
     random.seed(seed)
     np.random.seed(seed)
     d = cfg["d"]
-    names = [f"f{j}" for j in range(d)] if cfg["names"] == "str" else list(range(d))
+    # one feature-name list object per (d, kind), shared by every scenario of the process - like a module-level FEATURES
+    # constant in user code: nobody may reorder or otherwise change it
+    names = _NAMES.setdefault((d, cfg["names"]), [f"f{j}" for j in range(d)] if cfg["names"] == "str" else list(range(d)))
     w = [1.0, -2.0, 0.5, 3.0][:d]
 
     def model(x):
@@ -135,6 +140,16 @@ def scenario_gen(cfg, seed):
 
         def loss(y, p):    # noqa: F811
             return sum((1.0 if (lab == "pos") == (y > 0) else 0.0) * v + 0.1 * len(p) for lab, v in p.items())
+    if cfg.get("model") == "sparse-labels":      # top-1 style classifier: every output dict carries only the winning label
+
+        def model(x):      # noqa: F811
+            if not isinstance(x, dict):
+                return [model(xi) for xi in x]
+            s_ = sum(wi * x[n] for wi, n in zip(w, names))
+            return {("neg" if s_ < -1 else ("mid" if s_ < 1 else "pos")): 0.5 + abs(s_) % 0.5}
+
+        def loss(y, p):    # noqa: F811
+            return sum(v * (1.0 if (lab == "pos") == (y > 0) else 2.0) for lab, v in p.items()) + 0.25 * len(p)
     kind, st_kind, imp_kind = cfg["explainer"], cfg["storage"], cfg["imputer"]
     if kind == "interval":
         st_kind = "interval"
